@@ -323,7 +323,7 @@ def register(I, R, hooks):
             k = kind
             if kind == "display":
                 gens = info.path.generics(-1)
-                if gens and _interp.short_type(gens[0]) == "char":
+                if gens and _interp.short_type(gens[0]).replace("&", "").replace("mut ", "").strip() == "char":
                     k = "display_char"
             return FmtArg(k, args[0])
         h.__name__ = "fmt_arg_" + kind
